@@ -31,10 +31,10 @@ type GateResult struct {
 	ID         int         `json:"id"`
 	Prog       string      `json:"prog"`
 	Label      string      `json:"label"`
-	Steps      int         `json:"steps"`     // gate-to-gate segments executed
-	Followed   int         `json:"followed"`  // schedule entries that could be followed literally
-	Deferred   int         `json:"deferred"`  // entries postponed because the builder was not enabled
-	Order      []int       `json:"order"`     // the interleaving that was executed
+	Steps      int         `json:"steps"`    // gate-to-gate segments executed
+	Followed   int         `json:"followed"` // schedule entries that could be followed literally
+	Deferred   int         `json:"deferred"` // entries postponed because the builder was not enabled
+	Order      []int       `json:"order"`    // the interleaving that was executed
 	DumpHash   string      `json:"dump_hash"`
 	BaseHash   string      `json:"base_hash"`
 	Violations []Violation `json:"violations"`
@@ -170,7 +170,7 @@ func runGateCase(three []*packages.Package, gc GateCase, mode ir.BuilderMode, ba
 		rc.add("Deadlock", "", "%s: %s; executed order %v", res.Label, what, res.Order)
 	}
 	for len(waiting)+len(finished) < 2 {
-		if !next(60 * time.Second) {
+		if !next(300 * time.Second) {
 			hang("builders did not reach their first gate")
 			goto end
 		}
@@ -223,7 +223,7 @@ func runGateCase(three []*packages.Package, gc GateCase, mode ir.BuilderMode, ba
 			res.Order = append(res.Order, pick)
 			res.Steps++
 			close(a.ch)
-			if !next(60 * time.Second) {
+			if !next(300 * time.Second) {
 				hang(fmt.Sprintf("builder %d did not reach its next gate after %s", pick, a.pt.Ev))
 				break
 			}
